@@ -91,6 +91,7 @@ PLANS = {
         "bounds": "21 documents (scalar roots, empty containers, arrays of objects, container-valued members, number encodings) x navigation step sequences of <= N steps over 26 steps (wildcards, three name spellings, 19 index lists incl. last+-k, ranges, negative and i32-extreme values) and 170 filter steps (6 operators x operand paths x 10 literals, literal-left, path-vs-path, root-relative, &&/|| nesting, exists, nested filters) in 4 positions, 40 stand-alone predicates, arithmetic expressions and 64-bit-overflowing index forms",
     },
     "C09": {
+        "drive": [{"kind": "syntax", "count": {"quick": 6000, "thorough": 80000}, "ops": ["jp_parse"]}],
         "must_see": ["jp_parse:path", "jp_parse:err"],
         "gen": [
             {"name": "paths", "module": "GenSyntax", "constants": {"Family": '"paths"'}},
@@ -111,6 +112,7 @@ PLANS = {
         "bounds": "the C08 (document, path) universe: for each, all four modes through the Selector API, the three convenience functions, exists/path_exists, predicate_match/path_match, into empty and pre-filled buffers; data and offsets compared with the specification's ModeItems",
     },
     "C16": {
+        "drive": [{"kind": "syntax", "count": {"quick": 6000, "thorough": 80000}, "ops": ["kp_parse"]}],
         "must_see": ["kp_parse:kp", "kp_parse:err"],
         "gen": [
             {"name": "kp", "module": "GenSyntax", "constants": {"Family": '"kp"'}},
